@@ -698,7 +698,10 @@ impl BytesMut {
 
                 // Compare the condition in the `kind == KIND_VEC` case above
                 // for more details.
-                if v_capacity >= new_cap + offset {
+                if new_cap
+                    .checked_add(offset)
+                    .map_or(false, |needed| v_capacity >= needed)
+                {
                     self.cap = new_cap;
                     // no copy is necessary
                 } else if v_capacity >= new_cap && offset >= len {
